@@ -414,3 +414,7 @@ mod tests {
         assert_eq!(res, &[3, 4, 1, 3]);
     }
 }
+
+#[cfg(kani)]
+#[path = "/verif/kani/arrow-ord/rank.rs"]
+mod verif_kani;
